@@ -247,6 +247,54 @@ pub fn gen_history(r: &mut Rng, c: &GenCfg, max_terms: usize, max_unions: usize)
         }
         fam.push("symmetry-with-redundancy");
     }
+    // permuted self-reference next to an asserted symmetry: L(x..) = W(L(pi x..)) and L(x..) = L(sigma x..). Every symmetry of L is
+    // carried through the self-reference to its conjugates under pi, so the group of L is the closure of sigma under conjugation by pi -
+    // found only by repeating the self-symmetry detection of the W node until nothing changes (a rotation pi on four slots with one
+    // transposition sigma needs several rounds and ends in the full symmetric group)
+    if r.chance(1, 8) && c.max_names >= 3 && c.ns >= 3 && c.ops.contains(&"h") && (c.ops.contains(&"u") || c.ops.contains(&"app")) {
+        let k = if c.ops.contains(&"q") && c.max_names >= 4 && c.ns >= 4 && r.chance(2, 3) { 4 } else { 3 };
+        let op = if k == 4 { "q" } else { "h" };
+        let id: Vec<Name> = (0..k as Name).collect();
+        let mut rp = |r: &mut Rng| -> Vec<Name> {
+            loop {
+                let mut v = id.clone();
+                match r.below(3) {
+                    0 => v.rotate_left(1),
+                    1 => v.swap(r.below(k - 1), k - 1),
+                    _ => r.shuffle(&mut v),
+                }
+                if v != id {
+                    return v;
+                }
+            }
+        };
+        let (pi, sigma) = (rp(r), rp(r));
+        let wrap = |t: Tm, r: &mut Rng| -> Tm {
+            let cst = Tm::leaf("c", vec![]);
+            match r.below(3) {
+                0 if c.ops.contains(&"app") && c.ops.contains(&"c") => Tm::node("app", vec![], vec![(vec![], t), (vec![], cst)]),
+                1 if c.ops.contains(&"app") && c.ops.contains(&"c") => Tm::node("app", vec![], vec![(vec![], cst), (vec![], t)]),
+                _ if c.ops.contains(&"u") => Tm::node("u", vec![], vec![(vec![], t)]),
+                _ => Tm::node("app", vec![], vec![(vec![], t.clone()), (vec![], t)]),
+            }
+        };
+        let base = terms.len();
+        terms.push(Tm::leaf(op, id.clone()));
+        terms.push(wrap(Tm::leaf(op, pi.clone()), r));
+        terms.push(Tm::leaf(op, sigma.clone()));
+        if r.chance(1, 2) {
+            ordered_unions.push((base, base + 1));
+            ordered_unions.push((base, base + 2));
+        } else {
+            planned_unions.push((base, base + 1));
+            planned_unions.push((base, base + 2));
+        }
+        // a few arrangements that are (or are not) consequences
+        for _ in 0..r.below(3) {
+            terms.push(Tm::leaf(op, rp(r)));
+        }
+        fam.push("self-reference-with-symmetry");
+    }
     while terms.len() < nterms {
         let roll = r.below(13);
         if roll < 5 || terms.is_empty() {
